@@ -1,7 +1,7 @@
 """C16 - saturation flags follow the proportion rule and the mute gain covers them (structural clauses)."""
 import ast
 
-from sa.algebra import Evaluator, Poly, Undecided
+from sa.algebra import Evaluator, Poly, SymExec, Undecided
 from sa.calls import bind
 from sa import guards as GD
 from sa.common import value_alternatives, chain_root, expand_name, resolved_calls, returns_of
@@ -146,12 +146,42 @@ def _mean_of_compare(du, e, at):
     tb = _time_blocked(du, e, at)
     if tb is not None:
         return tb
+    frac_div = False
+    if isinstance(v, ast.BinOp) and isinstance(v.op, ast.Div) and isinstance(v.left, ast.Call) and call_name(v.left) in ("count_nonzero", "sum") and _is_channel_count(du, v.right, at):
+        # count of channels / number of channels  ==  mean over channels
+        v, frac_div = v.left, True
+    if isinstance(v, ast.Call) and call_name(v) in ("zeros", "zeros_like") and isinstance(e, ast.Name):
+        # a zero vector of ns entries filled on [:-1] with the ns - 1 slew fractions: the padded form (last sample never flagged)
+        d0 = [d for d in du.strong_reaching(e.id, at) if d.kind == "assign"]
+        st = [m for m in du.defs if m.var == e.id and m.kind == "mutate" and d0 and du.cfg.reachable(d0[0].node, m.node) and du.cfg.reachable(m.node, du.cfg.node_for(at))]
+        if len(st) == 1 and isinstance(st[0].stmt, ast.Assign) and isinstance(st[0].stmt.targets[0], ast.Subscript):
+            tg = st[0].stmt.targets[0]
+            okpad = isinstance(tg.slice, ast.Slice) and tg.slice.lower is None and tg.slice.upper is not None and const_value(tg.slice.upper) == (True, -1)
+            r = _mean_of_compare(du, st[0].stmt.value, st[0].stmt)
+            if r[0] is not None:
+                r[0]._pad_ok = okpad
+                r[0]._padded_store = True
+                return r
     if isinstance(v, ast.Call) and call_name(v) in ("mean", "count_nonzero", "sum") and v.args:
         ax = kwarg(v, "axis") or (v.args[1] if len(v.args) > 1 else None)
         cmp_ = expand_name(du, v.args[0], at)
         if isinstance(cmp_, ast.Compare) and len(cmp_.ops) == 1:
-            return cmp_, ax, v, ("fraction" if call_name(v) == "mean" else "count")
+            return cmp_, ax, v, ("fraction" if (call_name(v) == "mean" or frac_div) else "count")
     return None, None, v, None
+
+
+def _is_channel_count(du, e, at):
+    """nc / data.shape[0] / len(data): the number of channels (rows of data), possibly unpacked from data.shape"""
+    t = src(e).replace(" ", "")
+    if t in ("data.shape[0]", "len(data)"):
+        return True
+    if isinstance(e, ast.Name):
+        for d in du.strong_reaching(e.id, at):
+            if d.kind == "unpack" and d.unpack_index == 0 and d.value is not None and src(d.value).replace(" ", "") == "data.shape":
+                return True
+            if d.kind == "assign" and d.value is not None and src(d.value).replace(" ", "") in ("data.shape[0]", "len(data)"):
+                return True
+    return False
 
 
 def _time_blocked(du, e, at):
@@ -379,7 +409,10 @@ def d1_comparators(ctx):
                           f"{' and padded with a 0' if tbk['padded'] else ''}: the step from the last sample of a block to the first sample of the next block is never "
                           f"evaluated, so a saturation onset exactly at a block edge (sample k * block - 1) is not flagged and not muted - invisible while the input is "
                           "shorter than one block", key="block-edge", name_free=True)
-            if hasattr(cmp_, "_pad_ok"):
+            if hasattr(cmp_, "_pad_ok") and getattr(cmp_, "_padded_store", False):
+                ctx.check(cmp_._pad_ok, fi, cmp_, cmp_, "slew fractions are stored into [:-1] of a zero vector (flag sits on the sample before the jump, last sample never flagged)",
+                          "the ns-1 slew fractions are not stored into [:-1] of the per-sample vector: flags are shifted by one sample", key="pad")
+            elif hasattr(cmp_, "_pad_ok"):
                 ctx.check(cmp_._pad_ok, fi, cmp_._block["acc_stmt"], cmp_._block["acc_stmt"], "slew counts land on the sample before the jump (last sample never flagged)",
                           "the ns-1 slew counts are not accumulated into [:-1] of the per-sample vector: flags are shifted by one sample", key="pad")
             ev = Evaluator(resolve=lambda e: repo.resolve_expr(fi, e))
@@ -445,6 +478,127 @@ def d1_comparators(ctx):
               key="broadcast")
 
 
+def _scatter_mute(ctx, repo, fi, du, mute, flags, final_flags, rets):
+    """The taper subtracted around the flagged samples only: mute = ones(ns); for k in range(W): idx = I + (k - h); mute[idx] -= win[k]; then clamp at 0,
+    with I = where(final flags)[0], win = cosine(W), h = (W - 1) // 2 - what 1 - convolve(flags, win, 'same') is, provided every idx outside [0, ns) is dropped
+    (numpy counts a negative index from the end: an unfiltered negative idx subtracts the taper at the END of the array).  -> False when not this form."""
+    cfg = du.cfg
+    init = [d for d in du.defs if d.var == mute and d.kind == "assign"]
+    subs = [m for m in du.defs if m.var == mute and m.kind in ("aug", "mutate") and isinstance(m.stmt, ast.AugAssign) and isinstance(m.stmt.op, ast.Sub) and isinstance(m.stmt.target, ast.Subscript)]
+    if len(init) != 1 or not (isinstance(init[0].value, ast.Call) and call_name(init[0].value) in ("ones", "ones_like")) or len(subs) != 1:
+        return False
+    st = subs[0].stmt
+    lp = next((l_ for l_ in ast.walk(fi.node) if isinstance(l_, ast.For) and any(x is st for x in ast.walk(l_))), None)
+    if lp is None:
+        return False
+    k = loc_name(lp.target)
+    W = lp.iter.args[0] if isinstance(lp.iter, ast.Call) and call_name(lp.iter) in ("range", "arange") and len(lp.iter.args) == 1 else None
+    ctx.check(W is not None and loc_name(W) == "mute_window_samples", fi, lp, lp.iter, "one pass per tap of the taper window", "the loop does not run over the mute_window_samples taps of the window", key="scatter-taps", name_free=True)
+    # the index vector and its filters
+    idx = st.target.slice
+    chain, cur, at = [], idx, st
+    for _ in range(6):
+        if isinstance(cur, ast.Name):
+            ds = du.strong_reaching(cur.id, at)
+            if len(ds) == 1 and ds[0].kind == "assign" and ds[0].value is not None:
+                cur, at = ds[0].value, ds[0].stmt
+                continue
+        if isinstance(cur, ast.Subscript) and isinstance(cur.slice, (ast.Compare, ast.BinOp, ast.Call, ast.BoolOp)):
+            chain.append((cur.slice, at))
+            cur = cur.value
+            # the filtered vector names its own earlier value: step to the definition before this statement
+            if isinstance(cur, ast.Name):
+                ds = [d for d in du.reaching(cur.id, at) if d.stmt is not at]
+                prev = [d for d in du.defs if d.var == cur.id and d.kind == "assign" and d.stmt is not at and any(d.stmt is x for x in ast.walk(lp)) and cfg.reachable(d.node, cfg.node_for(at))]
+                if len(prev) == 1:
+                    cur, at = prev[0].value, prev[0].stmt
+                    continue
+            continue
+        break
+    base = cur
+    okbase = False
+    off = None
+    if isinstance(base, ast.BinOp) and isinstance(base.op, ast.Add):
+        for a_, b_ in ((base.left, base.right), (base.right, base.left)):
+            av = expand_name(du, a_, at)
+            if isinstance(av, ast.Subscript) and const_value(av.slice) == (True, 0) and isinstance(av.value, ast.Call) and call_name(av.value) in ("where", "nonzero") and av.value.args:
+                fl = av.value.args[0]
+            elif isinstance(av, ast.Call) and call_name(av) == "flatnonzero" and av.args:
+                fl = av.args[0]
+            else:
+                continue
+            fa = {x.idx for x in du.strong_reaching(loc_name(fl), at)} if loc_name(fl) else set()
+            okbase = bool(fa) and fa == final_flags
+            off = b_
+    ctx.check(okbase, fi, st, f"{src(base)[:70]}", "the taper is laid around the samples of the final flags", f"`{src(base)[:70]}` is not <indices of the final flags> + <tap offset>",
+              key="scatter-base", name_free=True)
+    # offset k - (W - 1) // 2 : the centring of mode='same'
+    okoff = False
+    if off is not None:
+        class E(Evaluator):
+            def ev(self, e):
+                if isinstance(e, ast.BinOp) and isinstance(e.op, ast.FloorDiv) and const_value(e.right) == (True, 2):
+                    return Poly.sym("HALF:" + self.ev(e.left).canon())
+                return super().ev(e)
+        try:
+            ev = E(resolve=lambda x: repo.resolve_expr(fi, x))
+            sx = SymExec(ev, on_undecided="havoc")
+            for s_ in fi.node.body:
+                if isinstance(s_, ast.Assign) and isinstance(s_.targets[0], ast.Name) and s_ is not lp:
+                    try:
+                        sx.step(s_)
+                    except Undecided:
+                        pass
+            ev.env[k] = Poly.sym("K")
+            o = ev.ev(off)
+            okoff = o == Poly.sym("K") - Poly.sym("HALF:" + (Poly.sym("mute_window_samples") - Poly.const(1)).canon())
+        except Undecided:
+            okoff = False
+    ctx.check(okoff, fi, st, f"offset {src(off) if off is not None else None}", "tap k lands (k - (W - 1) // 2) samples from the flagged sample (the centring of mode='same')",
+              f"tap offset `{src(off) if off is not None else None}` is not k - (mute_window_samples - 1) // 2: the taper is shifted against the flags", key="scatter-offset", name_free=True)
+    # both bounds filtered
+    lower = upper = False
+    for f_, _at in chain:
+        for c in [x for x in ast.walk(f_) if isinstance(x, ast.Compare) and len(x.ops) == 1]:
+            l_, r_, op = src(c.left).replace(" ", ""), src(c.comparators[0]).replace(" ", ""), type(c.ops[0])
+            if (op is ast.Lt and r_ in ("ns", "data.shape[1]", "data.shape[-1]", f"{mute}.size", f"len({mute})")) or (op is ast.LtE and r_.endswith("-1")) or (op is ast.Gt and l_ in ("ns", "data.shape[1]")):
+                upper = True
+            if (op is ast.GtE and r_ == "0") or (op is ast.Gt and r_ == "-1") or (op is ast.LtE and l_ == "0") or (op is ast.Lt and l_ == "-1"):
+                lower = True
+    ctx.check(upper, fi, st, "indices below ns", "taps past the end of the array are dropped", "tap positions past the end of the array are not dropped (IndexError)", key="scatter-upper", name_free=True)
+    ctx.check(lower, fi, st, "indices from 0", "taps before the start of the array are dropped",
+              f"`{src(st)}`: tap positions before sample 0 are not dropped - for a flagged sample within the first (mute_window_samples - 1) // 2 samples the index is negative and numpy counts it "
+              "from the END of the array: the taper is subtracted from the last samples, which are muted although nothing is flagged near them (only the upper bound `< ns` is filtered)",
+              key="scatter-lower", name_free=True)
+    okw = any(isinstance(expand_name(du, n_, st), ast.Call) and call_name(expand_name(du, n_, st)) in ("cosine", "hann", "hanning") and "mute_window_samples" in src(expand_name(du, n_, st))
+              for n_ in [st.value.value] if isinstance(st.value, ast.Subscript)) and isinstance(st.value, ast.Subscript) and loc_name(st.value.slice) == k
+    ctx.check(okw, fi, st, st.value, "tap k of the cosine window is subtracted", f"`{src(st.value)}` is not tap k of cosine(mute_window_samples)", key="scatter-window", name_free=True)
+    # clamp at 0 afterwards
+    cl = [c for c in find(fi.node, ast.Call, nested=False) if call_name(c) in ("maximum", "clip") and c.args and loc_name(c.args[0]) == mute and (loc_name(kwarg(c, "out")) == mute or True)]
+    okcl = any((call_name(c) == "maximum" and len(c.args) >= 2 and const_value(c.args[1]) == (True, 0) and loc_name(kwarg(c, "out")) == mute) or
+               (call_name(c) == "clip" and len(c.args) >= 3 and const_value(c.args[1]) == (True, 0)) for c in cl) and all(cfg.reachable(cfg.node_for(lp), cfg.node_for(c)) for c in cl)
+    ctx.check(okcl, fi, cl[0] if cl else lp, cl[0] if cl else "clamp", "the gain is clamped at 0 after the taps were subtracted: within [0, 1]", "the gain is not clamped at 0 after the subtraction", key="range", name_free=True)
+    # an early return of the untouched all-ones gain needs `nothing flagged`
+    for r in rets:
+        if r is rets[-1] or not (isinstance(r.value, ast.Tuple) and len(r.value.elts) == 2 and loc_name(r.value.elts[1]) == mute):
+            continue
+        from sa import guards as GD
+        at_ = GD.Atoms()
+        pc = GD.path_condition(cfg, cfg.node_for(r), at_)
+        ok0 = False
+        for kk in GD.atoms_of(pc):
+            a_ = at_.exprs.get(kk)
+            t_ = src(a_).replace(" ", "") if a_ is not None else ""
+            if GD.entails(pc, GD.Atom(kk)) is True and t_.endswith(".size==0") and ("where(" in t_ or "flatnonzero(" in t_ or "nonzero(" in t_):
+                inner = [n_ for n_ in ast.walk(a_) if isinstance(n_, ast.Call) and call_name(n_) in ("where", "flatnonzero", "nonzero") and n_.args]
+                if inner and loc_name(inner[0].args[0]) and {x.idx for x in du.strong_reaching(loc_name(inner[0].args[0]), r)} == final_flags:
+                    ok0 = True
+            if GD.entails(pc, GD.Not(GD.Atom(kk))) is True and isinstance(a_, ast.Call) and call_name(a_) == "any":
+                ok0 = True
+        ctx.check(ok0, fi, r, r, "no flag: the gain is one everywhere (what 1 - convolve(no flags) gives)", f"`{src(r)}`: an all-ones gain is only right when no sample is flagged", key="range-ones", name_free=True)
+    return True
+
+
 def d2_d3_mute(ctx):
     ctx.rule("D2", "mute depends on the data only through the final flags")
     repo = ctx.repo
@@ -468,6 +622,19 @@ def d2_d3_mute(ctx):
         nm, at = work.pop()
         if nm is None:
             continue
+        inplace = [m for m in du.defs if m.var == nm and m.kind in ("mutate", "aug") and m.stmt is not None and du.cfg.reachable(m.node, du.cfg.node_for(at))]
+        for m in inplace:
+            if m.idx in visited:
+                continue
+            visited.add(m.idx)
+            srcs_ = [m.stmt.value] if isinstance(m.stmt, (ast.Assign, ast.AugAssign)) else []
+            tg_ = (m.stmt.targets[0] if isinstance(m.stmt, ast.Assign) else m.stmt.target) if isinstance(m.stmt, (ast.Assign, ast.AugAssign)) else None
+            if isinstance(tg_, ast.Subscript):
+                srcs_.append(tg_.slice)
+            for v_ in srcs_:
+                for n in ast.walk(v_):
+                    if isinstance(n, ast.Name) and n.id not in ("np", "scipy", nm):
+                        work.append((n.id, m.stmt))
         for d in du.strong_reaching(nm, at):
             if d.idx in visited:
                 continue
@@ -480,8 +647,9 @@ def d2_d3_mute(ctx):
                 continue
             if d.value is None:
                 continue
+            shape_only = {id(n.value) for n in ast.walk(d.value) if isinstance(n, ast.Attribute) and n.attr in ("shape", "size", "ndim", "dtype") and isinstance(n.value, ast.Name)}
             for n in ast.walk(d.value):
-                if isinstance(n, ast.Name) and n.id not in ("np", "scipy"):
+                if isinstance(n, ast.Name) and n.id not in ("np", "scipy") and id(n) not in shape_only:
                     work.append((n.id, d.stmt))
     ctx.check(not bad, fi, rets[-1], f"slice of {src(mute_e)}", "the mute gain is a function of the flags (and the taper width) only",
               f"the mute gain also depends on {sorted(set(bad))} directly (not through the flags)", key="slice")
@@ -493,6 +661,8 @@ def d2_d3_mute(ctx):
     ctx.rule("D3", "mute = maximum(0, 1 - convolve(flags, cosine window, mode='same')) in [0, 1]; returns (flags, mute)")
     if not md:
         raise AnalysisError("saturation: the returned gain has no definition")
+    if loc_name(mute_e) and _scatter_mute(ctx, repo, fi, du, loc_name(mute_e), loc_name(flags_e), final_flags, rets):
+        md = []
     for v, d_stmt in md:
         form = None
         if isinstance(v, ast.Call) and call_name(v) == "maximum" and len(v.args) == 2:
